@@ -388,6 +388,14 @@ class G:
             return g.vis("enable< %s >" % tmplargs(), g.add("ENABLE", kids=(one_or_seq(ids),)))
         if k == "disable":
             return g.vis("disable< %s >" % tmplargs(), g.add("DISABLE", kids=(one_or_seq(ids),)))
+        if k == "raw_string_c":
+            # raw_string with content rules, long brackets of level 0 only (the cyc alphabet has no marker character):
+            # opening bracket, optional eol, Contents... repeated until the closing bracket is ahead, closing bracket
+            g.alpha.update("[]ab")
+            close = lambda: g.add("STRING", "]]")
+            body = g.add("SEQ", kids=[g.add("NOTAT", kids=(close(),))] + ids)
+            core = g.add("SEQ", kids=(g.add("STRING", "[["), g.add("OPT", kids=(g.add("EOL"),)), g.add("STAR", kids=(body,)), close()))
+            return g.vis("raw_string< '[', '=', ']', %s >" % ", ".join(cpps), core)
         if k == "state":
             g.features |= GF_STATE
             n = nums[0]
@@ -677,7 +685,7 @@ def ctx_grammar(tu, gname, rnd, tmpl, arity, nums, prop, slot, gadget, mode=None
 
 
 # ---------------------------------------------------------------------- cycles (C11)
-CYC_EXTRA = [("state", 1, (1,), "C11"), ("action_b", 1, (), "C11"), ("control_b", 1, (), "C11"), ("if_apply", 1, (0,), "C11"),
+CYC_EXTRA = [("raw_string_c", 1, (), "C11"), ("raw_string_c", 2, (), "C11"), ("state", 1, (1,), "C11"), ("action_b", 1, (), "C11"), ("control_b", 1, (), "C11"), ("if_apply", 1, (0,), "C11"),
              ("try_catch_std_raise_nested", 1, (3,), "C11"), ("try_catch_type_raise_nested", 1, (1,), "C11")]
 CYC_FILLERS = ["nullable", "predicate", "failing", "consuming"]
 CYC_VARIANTS = ["direct", "indirect", "guarded", "loopbody", "second_alt"]
